@@ -1,6 +1,8 @@
 package harness
 
 import (
+	"encoding/hex"
+	"encoding/json"
 	"fmt"
 	"math"
 	"reflect"
@@ -8,6 +10,7 @@ import (
 	"strconv"
 	"strings"
 	"time"
+	"unicode/utf8"
 )
 
 // ---------------------------------------------------------------------------
@@ -62,6 +65,34 @@ type Val struct {
 	B bool    `json:"b,omitempty"`
 	L []Val   `json:"l,omitempty"`
 	M []KV    `json:"m,omitempty"`
+	// Hex carries S in replay files when S is not valid UTF-8 (JSON text cannot); always empty in memory.
+	Hex string `json:"hex,omitempty"`
+}
+
+type valJSON Val
+
+func (v Val) MarshalJSON() ([]byte, error) {
+	a := valJSON(v)
+	if !utf8.ValidString(v.S) {
+		a.Hex, a.S = hex.EncodeToString([]byte(v.S)), ""
+	}
+	return json.Marshal(a)
+}
+
+func (v *Val) UnmarshalJSON(b []byte) error {
+	var a valJSON
+	if err := json.Unmarshal(b, &a); err != nil {
+		return err
+	}
+	if a.Hex != "" {
+		raw, err := hex.DecodeString(a.Hex)
+		if err != nil {
+			return err
+		}
+		a.S, a.Hex = string(raw), ""
+	}
+	*v = Val(a)
+	return nil
 }
 
 func VNil() Val           { return Val{K: "nil"} }
